@@ -164,7 +164,8 @@ Definition maskinterp_idx (ys : list Q) (bad : list bool) : list Q :=
 Definition qsum_red (l : list Q) : Q := fold_left (fun acc v => Qred (acc + v)) l 0.
 
 Inductive amethod := Traditional | Noconst | Mean | Nothing.
-Definition aesthetics_model (meth : amethod) (flux iv : list Q) : list Q :=
+(* the body after the `badpts.all()` early return *)
+Definition aesthetics_core (meth : amethod) (flux iv : list Q) : list Q :=
   let bad := map (fun v => Qeq_bool v 0) iv in
   if existsb (fun b => b) bad then
     match meth with
@@ -176,13 +177,42 @@ Definition aesthetics_model (meth : amethod) (flux iv : list Q) : list Q :=
     | Nothing => flux
     end
   else flux.
+(* aesthetics(): `badpts = invvar == 0; if badpts.all(): return flux` comes first (no good pixel at all -- also the
+   empty output grid --: nothing to base nice values on) *)
+Definition aesthetics_model (meth : amethod) (flux iv : list Q) : list Q :=
+  if forallb (fun b : bool => b) (map (fun v => Qeq_bool v 0) iv) then flux else aesthetics_core meth flux iv.
+
+(* ---- aesthetics(method='damp'): djs_maskinterp(const=True), then the WHOLE spectrum is multiplied by the tapers
+     0.5*(1+erf((pixels-mingood)/damp1))  if mingood > 0,          damp1 = min(mingood, 250)
+     0.5*(1+erf((maxgood-pixels)/damp2))  if maxgood < nflux-1,    damp2 = min(maxgood, 250)   [sic]
+   erf is not rational: the half-error-function  erfh x = 0.5*(1+erf x)  is a PARAMETER (a Section variable with the
+   hypothesis 0 <= erfh x <= 1 in the theorems; a finite table of scipy values in the correspondence run). *)
+Definition damp_len : nat := 250.
+Definition aesthetics_damp (erfh : Q -> Q) (flux iv : list Q) : list Q :=
+  let bad := map (fun v => Qeq_bool v 0) iv in
+  if forallb (fun b : bool => b) bad then flux
+  else if existsb (fun b => b) bad then
+    let good := filter (fun i => negb (nthB bad i)) (seq 0 (length iv)) in       (* invvar.nonzero()[0] *)
+    let mingood := hd O good in
+    let maxgood := last good O in
+    let n := length flux in
+    let t1 := fun i : nat => if (0 <? mingood)%nat
+                             then erfh ((qnat i - qnat mingood) / qnat (Nat.min mingood damp_len)) else 1 in
+    let t2 := fun i : nat => if (maxgood <? n - 1)%nat
+                             then erfh ((qnat maxgood - qnat i) / qnat (Nat.min maxgood damp_len)) else 1 in
+    map (fun t : nat * Q => snd t * t1 (fst t) * t2 (fst t)) (combine (seq 0 n) (maskinterp_idx flux bad))
+  else flux.
+(* the taper as a finite table (exact rational argument -> value); 0 for an argument that is not listed *)
+Definition table_fun (tbl : list (Q * Q)) (x : Q) : Q :=
+  match find (fun e : Q * Q => Qeq_bool (fst e) x) tbl with Some e => snd e | None => 0 end.
 
 (* ------------------------------------------------------------------ the whole function *)
 Record cin := mkCin {
   c_inloglam : list Q; c_flux : list Q; c_ivar : option (list Q);   (* flat *)
   c_specnum : list nat; c_nspec : nat; c_newloglam : list Q;
   c_maxsep : Q; c_k : nat; c_method : amethod;
-  c_isort : list nat                     (* nonzero[inloglam[nonzero].argsort()] as numpy computed it *)
+  c_isort : list nat;                    (* nonzero[inloglam[nonzero].argsort()] as numpy computed it *)
+  c_stacked : bool                       (* the input arrays are 2-D (objivar.ndim > 1), even with a single row *)
 }.
 
 Definition good_index (c : cin) : list nat :=
@@ -196,7 +226,7 @@ Definition good_index (c : cin) : list nat :=
 Definition weights (c : cin) : list Q :=
   match c_ivar c with
   | None => map (fun _ => 1) (c_inloglam c)
-  | Some iv => if (2 <=? c_nspec c)%nat then smooth_weights (c_nspec c) (c_specnum c) iv else iv
+  | Some iv => if c_stacked c then smooth_weights (c_nspec c) (c_specnum c) iv else iv
   end.
 
 (* stages up to newivar before growth; fits = one optional recorded/model fit per group, in group order *)
@@ -230,7 +260,7 @@ Definition combine1fiber_model (c : cin) (fits : list (option gfit)) : list Q * 
 Definition model_fit (sv : solver) (maxiter : nat) (lower upper bkspace : Q) (k : nat)
            (c : cin) (ss : list nat) : option gfit :=
   let wts := match c_ivar c with
-             | Some iv => if (2 <=? c_nspec c)%nat then smooth_weights (c_nspec c) (c_specnum c) iv else iv
+             | Some iv => if c_stacked c then smooth_weights (c_nspec c) (c_specnum c) iv else iv
              | None => map (fun _ => 1) (c_inloglam c) end in
   let ds := map (fun i => mkDatum (nthQ (c_inloglam c) i) (nthQ (c_flux c) i) (nthQ wts i)) ss in
   let gb := knots_of_option (OBkspace bkspace) (map dx ds) k 1 in
@@ -239,12 +269,116 @@ Definition model_fit (sv : solver) (maxiter : nat) (lower upper bkspace : Q) (k 
   | None => None
   end.
 
+(* ------------------------------------------------------------------ the whole chain inside the model
+   (round 5): the per-group iterfit call  iterfit(x[ss], flux[ss], invvar=objivar[ss] | None, nord=nord,
+   requiren=1, bkspace=bkptbin)  computed here instead of being recorded:
+     default weights 1/var (var = ydata.var()*nx/(nx-1), 1 when var = 0) without invvar,
+     knots = knots_of_option (OBkspace bkptbin) on the group's abscissae (C08),
+     every pass of the loop: the requiren walk masks breakpoints whose interval holds fewer than `requiren` good
+       pixels (the port's walk never counts the last pixel, so the last real breakpoint is ALWAYS masked),
+       bspline.fit on the unmasked knots (error -2 = fewer than nord good coefficients: coefficients stay 0),
+       djs_reject at lower = upper = 5 (C10: reject),
+     at most maxiter + 1 = 11 fits. *)
+Definition qsum (l : list Q) : Q := fold_left (fun acc v => Qred (acc + v)) l 0.
+Definition default_invvar (ys : list Q) : Q :=
+  let n := qnat (length ys) in
+  let mu := qsum ys / n in
+  let var := (qsum (map (fun y => (y - mu) * (y - mu)) ys) / n) * (n / (n - 1)) in
+  if Qeq_bool var 0 then 1 else Qred (1 / var).
+
+Fixpoint drop_while {A} (f : A -> bool) (l : list A) : list A :=
+  match l with a :: r => if f a then drop_while f r else l | [] => [] end.
+(* `while x[i] >= lo and x[i] < hi and i < nx-1: ct += w[i]*m[i] > 0; i += 1` on the pixels that are left *)
+Fixpoint count_span (lo hi : Q) (l : list (Q * bool)) (ct : nat) : nat * list (Q * bool) :=
+  match l with
+  | (x, g) :: r => if Qle_bool lo x && Qltb x hi then count_span lo hi r (if g then S ct else ct) else (ct, l)
+  | [] => (ct, [])
+  end.
+Fixpoint requiren_walk (requiren : nat) (gbk : list Q) (ilefts : list nat) (rem : list (Q * bool)) (ct : nat) : list nat :=
+  match ilefts with
+  | [] => []
+  | il :: rest =>
+      let '(ct', rem') := count_span (nthQ gbk il) (nthQ gbk (S il)) rem ct in
+      if (requiren <=? ct')%nat then requiren_walk requiren gbk rest rem' 0
+      else il :: requiren_walk requiren gbk rest rem' ct'
+  end.
+(* clear the mask at the positions (counted among the TRUE entries) listed in `targets` *)
+Fixpoint clear_goods (bkm : list bool) (targets : list nat) (pos : nat) : list bool :=
+  match bkm with
+  | [] => []
+  | true :: r => negb (existsb (Nat.eqb pos) targets) :: clear_goods r targets (S pos)
+  | false :: r => false :: clear_goods r targets pos
+  end.
+Definition requiren_update (requiren k : nat) (bk : list Q) (bkm : list bool) (xs : list Q) (good : list bool) : list bool :=
+  let gbk := select bkm bk in
+  let nmask := length gbk in
+  let pts := removelast (combine xs good) in                        (* i < nx-1: the last pixel is never consumed *)
+  let rem := drop_while (fun t : Q * bool => Qltb (fst t) (nthQ gbk k)) pts in
+  clear_goods bkm (requiren_walk requiren gbk (seq k (nmask - k + 1 - k)) rem 0) 0.
+
+(* the full-length coefficient vector: solution values at the unmasked positions, 0 elsewhere *)
+Fixpoint spread (m : list bool) (vals : list Q) : list Q :=
+  match m with
+  | [] => []
+  | true :: m' => match vals with v :: vs => v :: spread m' vs | [] => 0 :: spread m' [] end
+  | false :: m' => 0 :: spread m' vals
+  end.
+Definition count_true (l : list bool) : nat := length (filter (fun b : bool => b) l).
+
+Fixpoint chain_loop (sv : solver) (fuel requiren k : nat) (lower upper : Q) (bk : list Q) (bkm : list bool)
+         (ds : list datum) (mask : list bool) : option gfit :=
+  match fuel with
+  | O => None
+  | S f =>
+      if (count_true mask <=? 1)%nat || negb (existsb (fun b : bool => b) bkm) then None   (* `sset.coeff = 0` exit: outside *)
+      else
+      let bkm' := requiren_update requiren k bk bkm (map dx ds) (map (fun t : datum * bool => Qltb 0 (dw (fst t)) && snd t) (combine ds mask)) in
+      if (count_true (skipn k bkm') <? k)%nat
+      then Some (mkGfit bk bkm' (map (fun _ => 0) (skipn k bk)) mask)                      (* fit() error -2 *)
+      else
+      let gb := select bkm' bk in
+      match fit_masked sv gb k ds mask with
+      | None => None
+      | Some c =>
+          let mask' := reject lower upper ds (yfit_of gb k c (map dx ds)) mask in
+          if mask_eqb mask' mask || (f =? 0)%nat
+          then Some (mkGfit bk bkm' (spread (skipn k bkm') c) mask')
+          else chain_loop sv f requiren k lower upper bk bkm' ds mask'
+      end
+  end.
+
+Definition chain_fit (sv : solver) (bkspace : Q) (c : cin) (ss : list nat) : option gfit :=
+  let ys := map (nthQ (c_flux c)) ss in
+  let ws := match c_ivar c with
+            | Some iv => map (nthQ (weights c)) ss
+            | None => let w := default_invvar ys in map (fun _ => w) ss end in
+  let ds := map (fun t : nat * Q => mkDatum (nthQ (c_inloglam c) (fst t)) (nthQ (c_flux c) (fst t)) (snd t)) (combine ss ws) in
+  let bk := knots_of_option (OBkspace bkspace) (map dx ds) (c_k c) 1 in
+  chain_loop sv 11 1 (c_k c) 5 5 bk (map (fun _ => true) bk) ds (initial_mask ds).
+
+(* groups of <= 2 pixels are not fitted at all *)
+Definition chain_fits (sv : solver) (bkspace : Q) (c : cin) : list (option gfit) :=
+  map (fun ss => if (length ss <=? 2)%nat then None else chain_fit sv bkspace c ss)
+      (groups (c_maxsep c) (c_inloglam c) (c_isort c)).
+Definition combine1fiber_chain (sv : solver) (bkspace : Q) (c : cin) : list Q * list Q :=
+  combine1fiber_model c (chain_fits sv bkspace c).
+
+(* damp: same stages and inverse variance, the cosmetic step is aesthetics_damp *)
+Definition combine1fiber_damp (erfh : Q -> Q) (c : cin) (fits : list (option gfit)) : list Q * list Q :=
+  match good_index c with
+  | [] => (map (fun _ => 0) (c_newloglam c), map (fun _ => 0) (c_newloglam c))
+  | _ =>
+      let '(s, iv) := stages c fits in
+      let newivar := grow iv in
+      (aesthetics_damp erfh (s_flux s) newivar, newivar)
+  end.
+
 (* ------------------------------------------------------------------ preprocess_spectra: de-redshifting
    every object's wavelength vector is handed to combine1fiber as rowloglam - logshift, logshift = log10(1+z)
    (a parameter here: the logarithm is not rational) *)
 Definition shift_grid (shift : Q) (loglam : list Q) : list Q := map (fun L => L - shift) loglam.
 Definition with_inloglam (c : cin) (l : list Q) : cin :=
-  mkCin l (c_flux c) (c_ivar c) (c_specnum c) (c_nspec c) (c_newloglam c) (c_maxsep c) (c_k c) (c_method c) (c_isort c).
+  mkCin l (c_flux c) (c_ivar c) (c_specnum c) (c_nspec c) (c_newloglam c) (c_maxsep c) (c_k c) (c_method c) (c_isort c) (c_stacked c).
 Definition preprocess_model (shift : Q) (c : cin) (fits : list (option gfit)) : list Q * list Q :=
   combine1fiber_model (with_inloglam c (shift_grid shift (c_inloglam c))) fits.
 
@@ -252,7 +386,7 @@ Definition preprocess_model (shift : Q) (c : cin) (fits : list (option gfit)) : 
 Definition scale_cin (s : Q) (c : cin) : cin :=
   mkCin (c_inloglam c) (map (fun f => f * s) (c_flux c))
         (match c_ivar c with Some iv => Some (map (fun v => v / (s * s)) iv) | None => None end)
-        (c_specnum c) (c_nspec c) (c_newloglam c) (c_maxsep c) (c_k c) (c_method c) (c_isort c).
+        (c_specnum c) (c_nspec c) (c_newloglam c) (c_maxsep c) (c_k c) (c_method c) (c_isort c) (c_stacked c).
 Definition scale_fit (s : Q) (f : option gfit) : option gfit :=
   match f with
   | Some g => Some (mkGfit (g_bk g) (g_bkmask g) (map (fun a => a * s) (g_coeff g)) (g_bmask g))
@@ -297,7 +431,7 @@ Definition spec_interp_law (rtol : Q) (c : cin) (comb : list bool) (newivar : li
   match c_ivar c with
   | None => true
   | Some iv =>
-      if (2 <=? c_nspec c)%nat then true else
+      if c_stacked c || (2 <=? c_nspec c)%nat then true else
       let gf := good_flags c comb in
       let pts := map (fun i => (nthQ (c_inloglam c) i, nthQ iv i * b2q (nthB gf i))) (seq 0 (length iv)) in
       let raw := map (fun i => (nthQ (c_inloglam c) i, nthQ iv i)) (seq 0 (length iv)) in
@@ -336,7 +470,11 @@ Definition rtol6 : Q := 1 # 1000000.
 Inductive case :=
   (* inputs, recorded per-group fits, recorded fullcombmask (as the harness reconstructs it), outputs *)
 | CComb (c : cin) (fits : list (option gfit)) (obs_comb : list bool) (newflux newivar : list Q)
-| CStage (c : cin) (fits : list (option gfit)) (obs_comb : list bool) (pre_flux pre_ivar newflux newivar : list Q).
+| CStage (c : cin) (fits : list (option gfit)) (obs_comb : list bool) (pre_flux pre_ivar newflux newivar : list Q)
+  (* the whole chain in the model: nothing recorded but argsort; bkspace = bkptbin as the code computed it *)
+| CChain (c : cin) (bkspace : Q) (obs_comb : list bool) (newflux newivar : list Q)
+  (* aesthetics='damp': recorded fits, the taper given as a table of scipy erf values *)
+| CDamp (c : cin) (fits : list (option gfit)) (obs_comb : list bool) (tbl : list (Q * Q)) (newflux newivar : list Q).
 
 Definition model_ok (c : cin) (fits : list (option gfit)) (obs_comb : list bool) (newflux newivar : list Q) : bool :=
   let '(mf, mi, comb) := combine1fiber_full c fits in
@@ -355,8 +493,38 @@ Definition stages_ok (c : cin) (fits : list (option gfit)) (pre_flux pre_ivar : 
       all2 (close_rel rtol6) pre_flux (s_flux s)
   end.
 
+Definition damp_ok (c : cin) (fits : list (option gfit)) (tbl : list (Q * Q)) (obs_comb : list bool) (newflux newivar : list Q) : bool :=
+  (* = combine1fiber_damp (table_fun tbl) c fits, with the stages evaluated once and fullcombmask compared as well *)
+  let '(mf, mi, comb) :=
+    match good_index c with
+    | [] => (map (fun _ => 0) (c_newloglam c), map (fun _ => 0) (c_newloglam c), map (fun _ => false) (c_inloglam c))
+    | _ => let '(s, iv) := stages c fits in
+           let ni := grow iv in (aesthetics_damp (table_fun tbl) (s_flux s) ni, ni, s_comb s)
+    end in
+  all2 Bool.eqb comb obs_comb &&
+  all2 (fun a b => Bool.eqb (Qeq_bool a 0) (Qeq_bool b 0) && close_rel rtol9 a b) newivar mi &&
+  all2 (close_rel rtol6) newflux mf.
+(* the instance of the taper satisfies the hypothesis of the damp theorems *)
+Definition table_in_unit (tbl : list (Q * Q)) : bool := forallb (fun e : Q * Q => Qle_bool 0 (snd e) && Qle_bool (snd e) 1) tbl.
+
 Definition run_case (cs : case) : Z :=
   match cs with
+  | CChain c bkspace obs_comb newflux newivar =>
+      let fits := chain_fits fit_fast bkspace c in
+      (* +4: the chain model declines -- a group's least-squares problem has no unique solution in exact arithmetic
+         (more coefficients than pixels) or the rejection left <= 1 pixel; the recorded-fit case of the same call stands *)
+      let solved := forallb (fun t : list nat * option gfit =>
+                             (length (fst t) <=? 2)%nat || match snd t with Some _ => true | None => false end)
+                          (combine (groups (c_maxsep c) (c_inloglam c) (c_isort c)) fits) in
+      let m_ok := model_ok c fits obs_comb newflux newivar in
+      let s_ok := spec_basic c newflux newivar && spec_zero_pattern c obs_comb newivar
+                  && spec_interp_law rtol9 c obs_comb newivar && spec_stack_bound rtol9 c obs_comb newivar in
+      ((if solved then (if m_ok then 0 else 1) else 4) + (if s_ok then 0 else 2))%Z
+  | CDamp c fits obs_comb tbl newflux newivar =>
+      let m_ok := damp_ok c fits tbl obs_comb newflux newivar && table_in_unit tbl in
+      let s_ok := spec_basic c newflux newivar && spec_zero_pattern c obs_comb newivar
+                  && spec_interp_law rtol9 c obs_comb newivar && spec_stack_bound rtol9 c obs_comb newivar in
+      ((if m_ok then 0 else 1) + (if s_ok then 0 else 2))%Z
   | CComb c fits obs_comb newflux newivar =>
       let m_ok := model_ok c fits obs_comb newflux newivar in
       let s_ok := spec_basic c newflux newivar && spec_zero_pattern c obs_comb newivar
@@ -383,4 +551,7 @@ Definition diagnose (cs : case) : list bool :=
   | CComb c fits obs_comb newflux newivar => d c fits obs_comb newflux newivar
   | CStage c fits obs_comb pre_flux pre_ivar newflux newivar =>
       d c fits obs_comb newflux newivar ++ [stages_ok c fits pre_flux pre_ivar]
+  | CChain c bkspace obs_comb newflux newivar => d c (chain_fits fit_fast bkspace c) obs_comb newflux newivar
+  | CDamp c fits obs_comb tbl newflux newivar =>
+      d c fits obs_comb newflux newivar ++ [damp_ok c fits tbl obs_comb newflux newivar; table_in_unit tbl]
   end.
